@@ -112,7 +112,9 @@ def worker_harness(I: Interp) -> None:
 
     def read_frame(I2: Interp, self_: V) -> V:
         def go() -> V:
-            k = I2.choose([z3.BoolVal(True)] * 7)
+            k = I2.choose([z3.BoolVal(True)] * 9)
+            short = k in (7, 8)  # a frame too short for an address header (Len < 2), which
+            k = {7: 0, 8: 4}.get(k, k)  # _read_frame returns as (hdr, None, data) for any word
             I2.ghost["frame_kind"] = k
             if k == 5:
                 raise PyExc(VObj(asyncio.IncompleteReadError, {"args": VTuple([])}))
@@ -126,8 +128,8 @@ def worker_harness(I: Interp) -> None:
             else:
                 I2.assume(z3.And(cw.t != ALIVE, cw.t != ACK, cw.t != DATA))
             hdr = I2.call(h.HSFZHeader, I2.fresh_int("len", 0), cw)
-            req = NONE if k == 2 else I2.call(h.HSFZDiagReqHeader, I2.fresh_int("s"),
-                                              I2.fresh_int("d"))
+            req = NONE if k == 2 or short else I2.call(h.HSFZDiagReqHeader, I2.fresh_int("s"),
+                                                       I2.fresh_int("d"))
             data = NONE if k in (2, 3) else I2.fresh_bytes("payload")
             I2.ghost["frame"] = (hdr, req, data)
             return VTuple([hdr, req, data])
